@@ -106,10 +106,10 @@ def _aggregate_battery_power_bounds(
     assert len(battery_metrics) > 0, "No batteries given."
 
     # Calculate the aggregated bounds for the set of batteries
-    power_inclusion_upper_bound = sum(
+    power_inclusion_upper_bound = math.fsum(
         bounds.inclusion_upper for bounds in battery_metrics
     )
-    power_inclusion_lower_bound = sum(
+    power_inclusion_lower_bound = math.fsum(
         bounds.inclusion_lower for bounds in battery_metrics
     )
 
